@@ -10,9 +10,12 @@ API (reusable by other properties, e.g. C12/C14)
   sim.add_client() -> c                 a fake client connection registered at the server
   sim.submit_root(c, script, nid)       real handle_new_comp_task + handle_request; returns
                                         dict(box=<server mailbox id>, target=<worker>, uuid=..)
-  sim.enabled() -> [('recv', i) | ('main', i) | ('server', i)]
+  sim.enabled() -> [('recv', i) | ('recv2', i) | ('main', i) | ('server', i)]
   sim.do(ev) -> info                    executes exactly one event:
        ('recv', i)    worker i's real receiving thread (recv_incoming) handles the next message
+       ('recv2', i)   only after sim.arm_deposit_gate(i): the receiving thread was parked INSIDE
+                      WorkerMailbox.deposit_result (num_results already incremented, value not yet stored);
+                      this event lets it finish the handler
        ('main', i)    worker i's real main thread (_loop) runs from its current gate to the next
        ('server', i)  real server.handle_message for the next message from worker i; info['asg'] is
                       the assignment it made ([[worker, [positions in the batch]], ...])
@@ -333,6 +336,22 @@ def await_markers():
     return {v: k for k, v in marks.items()}
 
 
+def deposit_marker():
+    """Line of the statement of WorkerMailbox.deposit_result that stores the value (`if
+    self.expecting_single_result:`), i.e. AFTER `self.num_results += 1`; found through the ast."""
+    fn = wmod.WorkerMailbox.deposit_result
+    src = textwrap.dedent(inspect.getsource(fn))
+    first = fn.__code__.co_firstlineno
+    node = ast.parse(src).body[0]
+    seen_inc = False
+    for st in node.body:
+        if isinstance(st, ast.AugAssign) and isinstance(st.target, ast.Attribute) and st.target.attr == 'num_results':
+            seen_inc = True
+        if seen_inc and isinstance(st, ast.If) and isinstance(st.test, ast.Attribute) and st.test.attr == 'expecting_single_result':
+            return st.lineno + first - 1
+    return -1          # shape changed: the deposit gate is simply never reached
+
+
 class WorkerRig:
     def __init__(self, sim, wid, fine):
         self.sim, self.wid, self.fine = sim, wid, fine
@@ -347,9 +366,27 @@ class WorkerRig:
         self.w = w
         self.conn = Chan(self)
         old = logging.getLogRecordFactory()
+        self.dep_armed = False
+        dep_code = wmod.WorkerMailbox.deposit_result.__code__
+        dep_line = deposit_marker()
+
+        def rlocal(frame, event, arg):
+            if event == 'line' and frame.f_lineno == dep_line and self.dep_armed:
+                self.dep_armed = False
+                self.rgate.park('dep')
+            return rlocal
+
+        def rtracer(frame, event, arg):
+            if frame.f_code is dep_code:
+                return rlocal
+            return None
+
         try:
+            if fine:
+                threading.settrace(rtracer)        # inherited by the receiving thread started in __init__
             Worker.__init__(w, wid, self.conn)     # real constructor: starts the real receiving thread
         finally:
+            threading.settrace(None)
             logging.setLogRecordFactory(old)
         # the receiving thread is now running recv_incoming and heads for conn.recv()
         self.rthread = w.incoming_thread
@@ -553,7 +590,9 @@ class Sim:
         if self.server_dead is not None:
             return ev           # the server shut the whole runtime down
         for r in self.workers:
-            if self.down[r.wid] and r.rdead is None:
+            if r.rgate.label == 'dep' and r.rdead is None:
+                ev.append(('recv2', r.wid))
+            elif self.down[r.wid] and r.rdead is None:
                 ev.append(('recv', r.wid))
             if not r.mdead and (r.gate.label != 'blocked' or r.w._ready_task_ids.qsize() > 0):
                 ev.append(('main', r.wid))
@@ -572,6 +611,8 @@ class Sim:
                 r.rdead = 'SHUTDOWN'
                 return info
             r.rgate.advance()
+        elif kind == 'recv2':
+            r.rgate.advance()
         elif kind == 'main':
             r.gate.advance()
         elif kind == 'server':
@@ -587,6 +628,10 @@ class Sim:
                 self.server_dead = repr(e)
             info['asg'] = self._drain(batch)
         return info
+
+    def arm_deposit_gate(self, i):
+        """The next RESULT handled by worker i parks its receiving thread inside deposit_result."""
+        self.workers[i].dep_armed = True
 
     # -- observation -------------------------------------------------------
     def dump_worker(self, r):
